@@ -210,6 +210,54 @@ def frame(rng, maxblocks=5):
     return hdr + b"".join(blocks), content
 
 
+def rawlit_tail(rng):
+    """valid single-frame input whose LAST block (no checksum, so it is the last thing in the input) has Raw literals that the decoder may
+    reference in place inside the compressed block, followed by a SHORT sequences section (5..48 bytes) and sequences with long literal runs
+    that end at / near the end of the literals: the over-reading literal copy of the last sequences then starts a few bytes before the end
+    of the input (the wildcopy guard of ZSTD_decodeLiteralsBlock decides whether that is allowed).  Returns (frame, content)."""
+    h = Hist()
+    blocks = []
+    if rng.random() < 0.3:
+        n = rng.choice([1, 40, 700]); data = bytes(rng.getrandbits(8) for _ in range(n))
+        blocks.append(((n << 3) | 0).to_bytes(3, "little") + data); h.out += data
+    llc = rng.choice([16, 19, 22, 22, 23, 24, 25])          # literal lengths 16 .. 127
+    mlc = rng.choice([0, 0, 1, 5])
+    ofc = rng.choice([2, 3, 3, 4])
+    nseq = rng.randint(1, 40)
+    seqs, lits_needed = [], 0
+    pos = len(h.out)
+    for _ in range(nseq):
+        ll = LL_base[llc] + rng.getrandbits(LL_bits[llc])
+        ml = ML_base[mlc]
+        lo = (1 << ofc) - 3
+        off = lo + rng.getrandbits(ofc)
+        if off > pos + ll or off < 1:
+            off = max(1, min(lo + (1 << ofc) - 1, pos + ll)); 
+            if off < lo: break
+        seqs.append((ll, ml, off, off - lo)); lits_needed += ll; pos += ll + ml
+    tail = rng.choice([0, 0, 0, 1, 3, 15, 16, 17, 31])
+    nlits = lits_needed + tail
+    lits = bytes(rng.getrandbits(8) for _ in range(nlits))
+    lit_sec = lit_header(0, nlits, 1 if nlits < 4096 and rng.random() < 0.7 else 3) + lits
+    sec = bytes([len(seqs)]) + bytes([0x54, llc, ofc, mlc])
+    fields = []
+    for (ll, ml, off, extra) in seqs:
+        fields.append((extra, ofc))
+        if ML_bits[mlc]: fields.append((ml - ML_base[mlc], ML_bits[mlc]))
+        if LL_bits[llc]: fields.append((ll - LL_base[llc], LL_bits[llc]))
+    sec += bitstream(fields)
+    body = lit_sec + sec
+    lp = 0
+    for (ll, ml, off, extra) in seqs:
+        h.out += lits[lp:lp + ll]; lp += ll
+        for _ in range(ml):
+            h.out.append(h.out[-off])
+    h.out += lits[lp:]
+    blocks.append(((len(body) << 3) | (2 << 1) | 1).to_bytes(3, "little") + body)
+    wl = rng.choice([0, 8, 0x38])
+    return b"\x28\xb5\x2f\xfd\x00" + bytes([wl]) + b"".join(blocks), bytes(h.out)
+
+
 def stream(rng):
     """several frames and skippable frames back to back"""
     parts, content = [], b""
